@@ -27,8 +27,6 @@ class U64:
 def canon_num(x):
     x = float(x)
     if not math.isinf(x) and not math.isnan(x) and x == math.trunc(x) and abs(x) < 1e15:
-        if x == 0 and math.copysign(1, x) < 0:
-            return "-0"
         return str(int(x))
     return "f" + struct.pack(">d", x).hex()
 
